@@ -101,6 +101,7 @@ func (s *State) clone() *State {
 }
 
 type Exec struct {
+	subFuns   []string // declared sub-object functions (embedded struct fields)
 	witnessAx bool
 	w        *World
 	ctx      *Ctx
@@ -248,8 +249,13 @@ func (ex *Exec) freshOnlyComps(from int, n0 int) map[string]bool {
 			continue
 		}
 		good := w.freshOnly
-		if !good && w.key != nil && len(w.key.Args) == 0 {
-			if n, isFresh := ex.freshRefs[w.key.Op]; isFresh && n > n0 {
+		key := w.key
+		for key != nil && strings.HasPrefix(key.Op, "sub_") && len(key.Args) == 1 {
+			// an embedded struct field of an object: as fresh as the object it is part of
+			key = key.Args[0]
+		}
+		if !good && key != nil && len(key.Args) == 0 {
+			if n, isFresh := ex.freshRefs[key.Op]; isFresh && n > n0 {
 				good = true
 			}
 		}
@@ -275,6 +281,13 @@ func (ex *Exec) preserveAllocated(st *State, alloc, old, nw *Term) {
 	r := Bound{Name: ex.boundName("r"), Sort: SRef}
 	rv := V(r.Name, SRef)
 	ex.assume(st, Forall([]Bound{r}, Implies(Select(alloc, rv), Eq(Select(nw, rv), Select(old, rv)))))
+	// ... and so do the embedded struct fields (sub-objects) of those objects
+	for _, sf := range ex.subFuns {
+		x := Bound{Name: ex.boundName("x"), Sort: SRef}
+		sx := App(sf, SRef, V(x.Name, SRef))
+		ex.assume(st, &Term{Op: "forall", Sort: SBool, Bound: []Bound{x}, Pat: []*Term{sx},
+			Args: []*Term{Implies(Select(alloc, V(x.Name, SRef)), Eq(Select(nw, sx), Select(old, sx)))}})
+	}
 }
 
 func (ex *Exec) assume(st *State, t *Term) {
